@@ -36,9 +36,9 @@ func (r *Rand) Intn(n int) int {
 	}
 	return int(r.U64() % uint64(n))
 }
-func (r *Rand) U32() uint32  { return uint32(r.U64() >> 16) }
-func (r *Rand) Byte() byte   { return byte(r.U64() >> 24) }
-func (r *Rand) Bool() bool   { return r.U64()&0x100 != 0 }
+func (r *Rand) U32() uint32             { return uint32(r.U64() >> 16) }
+func (r *Rand) Byte() byte              { return byte(r.U64() >> 24) }
+func (r *Rand) Bool() bool              { return r.U64()&0x100 != 0 }
 func (r *Rand) Pick(xs []uint32) uint32 { return xs[r.Intn(len(xs))] }
 func (r *Rand) Bytes(n int) []byte {
 	b := make([]byte, n)
@@ -103,20 +103,20 @@ type Sink struct {
 	SpecOK    string // Coq function: case -> bool (spec admits implementation behaviour)
 	ShardSize int
 
-	terms     []string
-	jsons     []string
-	seen      map[string]bool
-	nontriv   int
-	classes   map[string]int
-	samples   []any
-	sampled   map[string]int
-	Direct    []map[string]any // failures decided on the Go side (panics, races, ...)
-	Defs      map[string]string // named Coq definitions a case may depend on (emitted only in the shards that use them)
-	deps      []string
-	CurDep    string
-	Filter    map[string]any   // replay: keep only the cases that agree with this case on ReplayKeys
-	ReplayKeys []string
-	Extra     map[string]any
+	terms           []string
+	jsons           []string
+	seen            map[string]bool
+	nontriv         int
+	classes         map[string]int
+	samples         []any
+	sampled         map[string]int
+	Direct          []map[string]any  // failures decided on the Go side (panics, races, ...)
+	Defs            map[string]string // named Coq definitions a case may depend on (emitted only in the shards that use them)
+	deps            []string
+	CurDep          string
+	Filter          map[string]any // replay: keep only the cases that agree with this case on ReplayKeys
+	ReplayKeys      []string
+	Extra           map[string]any
 	perClassSamples int
 }
 
